@@ -397,3 +397,104 @@ PROPS["C19"] = dict(
     watchdog=dict(quick=600, thorough=7200),
     assumptions=[CHK_ASSUMPTION],
 )
+
+
+def plugin_jobs(ctx):
+    jobs = []
+    plan = [("chk", 12), ("ship", 4)]
+    total = sum(n for _, n in plan)
+    idx = 0
+    for fl, n in plan:
+        d = ctx["build"](fl, "mon-plugin")
+        so = ctx["build_plugin"](fl)
+        for _ in range(n):
+            jobs.append(bin_job("C15", "mon-plugin", fl, d, ctx, idx, total, extra=["--plugin", so]))
+            idx += 1
+    if ctx["tier"] == "thorough":
+        d = ctx["build"]("ship", "mon-plugin")
+        so = ctx["build_plugin"]("ship")
+        for i in range(4):
+            jobs.append(bin_job("C15", "mon-plugin", "vg", d, ctx, i, 4, extra=["--plugin", so, "--small"],
+                                wrapper=["valgrind", "--quiet", "--error-exitcode=97", "--tool=memcheck"]))
+    return jobs
+
+
+def plugin_replay(ctx):
+    d = ctx["build"]("chk", "mon-plugin")
+    so = ctx["build_plugin"]("chk")
+    return subprocess.run([os.path.join(d, "mon-plugin"), "C15", "--plugin", so, "--replay", ctx["replay"]]).returncode
+
+
+PROPS["C15"] = dict(
+    jobs=plugin_jobs,
+    replay=plugin_replay,
+    rule=("each evaluation = one call history (set_board / make_move legal and illegal / evaluate with a tiny poll budget / "
+          "board) driven through chess_api::ChessEngine on the loaded libchess_bot.so: is_valid must equal model legality, "
+          "board() after every call must equal the reference position (squares, side, rights, e.p., clocks, Display) and be "
+          "unchanged by an invalid move, is_three_fold_draw must be true exactly when the new position's occurrence "
+          "count (since and including the position installed by the last set_board / the initial position) just became 3, "
+          "evaluate must propose a model-legal move or none; histories = knight shuffles (2-300 repetitions), repetitions "
+          "broken by a lost castling right / an e.p. marker, seeded histories biased to reversible shuffles (10-1200 "
+          "calls), several engines of one library interleaved; failing histories are shrunk; distinct_nontrivial = "
+          "distinct call histories"),
+    floor=dict(any={"evaluations": 3000, "occurrence:3rd": 2000, "occurrence:4th": 500, "call:make_move-illegal": 5000,
+                    "call:evaluate": 1000, "call:set_board": 2000, "histories:interleaved-engines": 500,
+                    "histories:knight-shuffle": 8}),
+    watchdog=dict(quick=900, thorough=7200),
+    assumptions=[MODEL_ASSUMPTION, CHK_ASSUMPTION,
+                 "interpretation: the position installed by set_board (or the initial position of a fresh engine) is "
+                 "the first occurrence", "plugin and driver are built by the same compiler; Miri cannot dlopen"],
+)
+
+
+def trace_jobs(ctx):
+    jobs = []
+    thorough = ctx["tier"] == "thorough"
+    for fl, n in (("chk", 6), ("ship", 6)):
+        d = ctx["build"](fl, "mon-trace")
+        for i in range(n):
+            jobs.append(bin_job("C20", "mon-trace", fl, d, ctx, i, n))
+    # data-race oracle: Miri on a small workload, several scheduler seeds (release profile)
+    nm = 8 if thorough else 3
+    mj = miri_jobs("C20", "mon-trace", ctx, nm)
+    for i, j in enumerate(mj):
+        j["env"] = dict(j["env"], MIRIFLAGS=j["env"]["MIRIFLAGS"] + f" -Zmiri-seed={ctx['seed'] * 100 + i}")
+    jobs += mj
+    if thorough:
+        d = ctx["build"]("tsan", "mon-trace")
+        for i in range(4):
+            jobs.append(bin_job("C20", "mon-trace", "tsan", d, ctx, i, 4, extra=["--small"],
+                                env=dict(TSAN_OPTIONS="halt_on_error=1:exitcode=66")))
+    return jobs
+
+
+def trace_replay(ctx):
+    d = ctx["build"]("chk", "mon-trace")
+    return subprocess.run([os.path.join(d, "mon-trace"), "C20", "--replay", ctx["replay"]]).returncode
+
+
+PROPS["C20"] = dict(
+    jobs=trace_jobs,
+    replay=trace_replay,
+    rule=("mechanism 1 (turnstile): each evaluation = one operation-granularity schedule over T worker threads x 8 operations "
+          "(enable, disable, toggle, local_enable, local_disable, local_toggle, take, restore); after EVERY step every "
+          "thread's is_enabled() is compared with the model (own override if set, else global); all schedules of length 4 "
+          "(T=2) and 3 (T=3) (thorough: 5 and 4), a BFS cover of the complete reachable (global, overrides) graph with every "
+          "outgoing transition, and seeded schedules of length 200 with T=2..4; mechanism 2 (free running): each "
+          "evaluation = one round of 2-4 unsynchronised threads issuing seeded operations, with in-place isolation "
+          "assertions (a thread holding an override must read it back whatever others do) and a brute-force "
+          "linearizability check of the global flag's write/xor/read history (real-time intervals from one ticket "
+          "counter); data races: the same binary under Miri with several scheduler seeds (thorough: more seeds + "
+          "ThreadSanitizer); distinct_nontrivial = distinct turnstile schedules"),
+    floor=dict(any={"turnstile-schedules:T2-L4": 65536, "turnstile-schedules:T3-L3": 13824,
+                    "graph-transitions-covered-T2": 288, "graph-transitions-covered-T3": 1296,
+                    "free-running-rounds": 100000, "linearizability-checks": 100000},
+               thorough={"turnstile-schedules:T2-L5": 1048576, "turnstile-schedules:T3-L4": 331776,
+                         "graph-transitions-covered-T2": 288, "graph-transitions-covered-T3": 1296,
+                         "free-running-rounds": 1000000}),
+    watchdog=dict(quick=900, thorough=7200),
+    assumptions=["operation semantics as documented in DESIGN.md Appendix A.5 (enable/disable set global AND the caller's "
+                 "override; toggle flips global and flips a set override)",
+                 "sub-operation interleavings are reached only by the free-running mechanism's scheduling and by Miri's "
+                 "seeded scheduler; schedule length is bounded"],
+)
